@@ -63,7 +63,7 @@ def main():
     hooks = subprocess.run(["git", "-C", "/repo", "log", "--format=%h %s"], capture_output=True, text=True).stdout.splitlines()
     hook_commits = [l.split()[0] for l in hooks if l.split(" ", 1)[1].startswith("verif:")]
     m = {"version": 1, "setup_cmd": "./vsim build --all",
-         "hooks": {"guard": "verif", "enable": "go build -tags verif (vsim build compiles /verif/sim into /repo's module through -overlay; nothing is written to /repo). Beyond the committed buffer-pool hook, the overlay compiles the package's non-test files that import sync from copies in which that import names /verif/sim/verifsync (lock and sync.Pool seams; build-time only, same line numbers). ./vsim build --all also builds the race-detector variant (-race, simulator packages excluded from instrumentation).",
+         "hooks": {"guard": "verif", "enable": "go build -tags verif (vsim build compiles /verif/sim into /repo's module through -overlay; nothing is written to /repo). Beyond the committed buffer-pool hook, the overlay compiles the package's non-test files that import sync or time from copies in which those imports name /verif/sim/verifsync and /verif/sim/verifsync/simtime (lock, sync.Pool and clock seams; build-time only, same line numbers). ./vsim build --all also builds the race-detector variant (-race, simulator packages excluded from instrumentation).",
                    "baseline_off_cmd": "cd /repo && GOFLAGS=-mod=mod GOPROXY=off go test -vet=off -count=1 -timeout 25m ./...",
                    "source_commits": hook_commits, "add_only": True},
          "engines": [{"name": "vsim", "path": "/verif/vsim", "serves_properties": sorted(CHECKS),
